@@ -61,11 +61,11 @@ func newGCWorld(r *Rng, cov *Cov) *gcWorld {
 		"P3": func() ecs.ID { return ecs.ComponentID[P3](&w) }, "P4": func() ecs.ID { return ecs.ComponentID[P4](&w) },
 		"P5": func() ecs.ID { return ecs.ComponentID[P5](&w) }, "P6": func() ecs.ID { return ecs.ComponentID[P6](&w) },
 		"P7": func() ecs.ID { return ecs.ComponentID[P7](&w) }, "P8": func() ecs.ID { return ecs.ComponentID[P8](&w) },
-		"P9": func() ecs.ID { return ecs.ComponentID[P9](&w) }, "V1": func() ecs.ID { return ecs.ComponentID[V1](&w) },
+		"P9": func() ecs.ID { return ecs.ComponentID[P9](&w) }, "PA": func() ecs.ID { return ecs.ComponentID[PA](&w) }, "V1": func() ecs.ID { return ecs.ComponentID[V1](&w) },
 		"V2": func() ecs.ID { return ecs.ComponentID[V2](&w) }, "V3": func() ecs.ID { return ecs.ComponentID[V3](&w) },
 		"Rel": func() ecs.ID { return ecs.ComponentID[RelA](&w) },
 	}
-	order := []string{"P1", "P2", "P3", "P4", "P5", "P6", "P7", "P8", "P9", "V1", "V2", "V3", "Rel"}
+	order := []string{"P1", "P2", "P3", "P4", "P5", "P6", "P7", "P8", "P9", "PA", "V1", "V2", "V3", "Rel"}
 	Shuffle(r, order)
 	for _, k := range order {
 		g.ids[k] = reg[k]()
@@ -74,7 +74,7 @@ func newGCWorld(r *Rng, cov *Cov) *gcWorld {
 		}
 	}
 	g.rel = g.ids["Rel"]
-	g.pids = []string{"P1", "P2", "P3", "P4", "P5", "P6", "P7", "P8", "P9"}
+	g.pids = []string{"P1", "P2", "P3", "P4", "P5", "P6", "P7", "P8", "P9", "PA"}
 	return g
 }
 
@@ -122,6 +122,11 @@ func (g *gcWorld) mkValue(name string) (any, []uint64) {
 	case "P9":
 		a := g.newID()
 		return &P9{N: a, U: unsafe.Pointer(newObj(a))}, []uint64{a}
+	case "PA":
+		a := g.newID()
+		v := &PA{P: newObj(a)}
+		v.Pad[0], v.Pad[639] = a, ^a
+		return v, []uint64{a}
 	default:
 		a := g.newID()
 		return &P5{I: newObj(a)}, []uint64{a}
@@ -149,6 +154,8 @@ func store(name string, p unsafe.Pointer, v any) {
 		*(*P8)(p) = *v.(*P8)
 	case "P9":
 		*(*P9)(p) = *v.(*P9)
+	case "PA":
+		*(*PA)(p) = *v.(*PA)
 	}
 }
 
@@ -173,6 +180,8 @@ func typedPtr(name string, p unsafe.Pointer) any {
 		return (*P8)(p)
 	case "P9":
 		return (*P9)(p)
+	case "PA":
+		return (*PA)(p)
 	case "V1":
 		return (*V1)(p)
 	case "V2":
@@ -247,6 +256,11 @@ func (g *gcWorld) verify(e ecs.Entity, name string, p unsafe.Pointer, want []uin
 		c := (*P9)(p)
 		if c.N != want[0] || !(*Obj)(c.U).ok(want[0]) {
 			return bad("object referenced through unsafe.Pointer damaged")
+		}
+	case "PA":
+		c := (*PA)(p)
+		if c.Pad[0] != want[0] || c.Pad[639] != ^want[0] || !c.P.ok(want[0]) {
+			return bad("large component or the object referenced at its end damaged")
 		}
 	}
 	g.cov.N["canary_checks"] += len(want)
